@@ -549,7 +549,7 @@ impl Packet {
                             if idx >= buf.len() {
                                 return Err(MessageError::InvalidOptionLength);
                             }
-                            delta = (buf[idx] + 13).into();
+                            delta = u16::from(buf[idx]) + 13;
                             idx += 1;
                         }
                         14 => {
